@@ -260,16 +260,21 @@ def chunk_stability(ctx, crate, crs, tag):
     ctx.ob("chunk-stability" + tag, AP + "chunk_and_offset", "div/rem-same-const", len(set(divs.values())) == 1 and len(divs) == 2
            and None not in divs.values(), "", "chunk = i / %s, offset = i %% %s" % (divs.get("Div"), divs.get("Rem")))
     size = divs.get("Div")
-    # every creation of an inner chunk: Vec::with_capacity(CHUNK_SIZE) inside the resize_with closures of Arena
+    # every creation of an inner chunk (a Vec<TValue>) in Arena::alloc / Arena::with_capacity or their closures:
+    # Vec::with_capacity(CHUNK_SIZE)
     n = 0
     for b in crate.bodies:
-        if not (b.root and strip_generics(b.root) in (AP + "alloc", AP + "with_capacity")) or b.kind != "Closure":
+        rootk = strip_generics(b.root) if b.root else b.key
+        if rootk not in (AP + "alloc", AP + "with_capacity"):
             continue
         for i, t in b.calls():
             f = t.get("f")
             if f is None:
                 continue
             if f["name"] in ("with_capacity", "new") and "Vec" in f["path"]:
+                dty = b.local_ty(t["dest"]["l"]) if "p" not in t["dest"] else ""
+                if dty != "std::vec::Vec<TValue>":
+                    continue
                 n += 1
                 ok = f["name"] == "with_capacity" and t["args"] and t["args"][0].get("k") == "const" and t["args"][0].get("v") == size
                 ctx.ob("chunk-stability" + tag, b.key, "chunk-capacity=CHUNK_SIZE", ok, where_call(b, i),
@@ -290,19 +295,23 @@ def chunk_stability(ctx, crate, crs, tag):
     # alloc grows the chunk table by exactly one chunk, only when chunk_idx >= chunks.len()
     a = body_by_key(crate, AP + "alloc")
     if a is not None:
-        rs = [(i, t) for i, t in a.calls() if t.get("f") and t["f"]["name"] == "resize_with"]
+        rs = [(i, t) for i, t in a.calls() if t.get("f") and (t["f"]["name"] == "resize_with" or
+              (t["f"]["name"] == "push" and "std::vec::Vec<TValue>" in " ".join(t.get("arg_tys") or [])[:200] and
+               (t.get("arg_tys") or ["", ""])[1] == "std::vec::Vec<TValue>"))]
         cs = q.conds(a, crs)
         for i, t in rs:
             okg = False
             for c in cs:
                 if c.kind == "cmp" and c.op == "Ge" and q.edge_dominates(a, c.bb, c.target(True), i):
                     okg = True
-            d = a.origin(t["args"][1])
-            ok1 = d["k"] == "rvalue" and d["r"]["k"] == "bin" and d["r"]["op"].replace("WithOverflow", "") == "Add" and \
-                d["r"]["b"].get("v") == 1
+            ok1 = True
+            if t["f"]["name"] == "resize_with":
+                d = a.origin(t["args"][1])
+                ok1 = d["k"] == "rvalue" and d["r"]["k"] == "bin" and d["r"]["op"].replace("WithOverflow", "") == "Add" and \
+                    d["r"]["b"].get("v") == 1
             ctx.ob("chunk-stability" + tag, a.key, "grow-by-one-when-needed", okg and ok1, where_call(a, i),
                    "the chunk table grows by one chunk when the target chunk does not exist yet")
-        # no other Vec-growing call on an inner chunk than push
+        ctx.floor("chunk-stability" + tag, "chunk-table growth site in alloc", len(rs), 1)
     # iterators and index use the same chunk_and_offset
     users = {q.enclosing_fn(crate, b) for b, i, t in q.callers_of(crate, AP + "chunk_and_offset")}
     need = {AP + "alloc", "<" + ARENA + "<TId, TValue> as std::ops::Index<TId>>::index"}
